@@ -34,11 +34,17 @@ def Sel.setOrderBy : Sel → List Expr → Sel
 def Sel.setLimit : Sel → Option Expr → Sel
   | .mk ws d c f j p w g h o _, l => .mk ws d c f j p w g h o l
 
+/-! ### further `sql_select.Select` methods (shared by the metric and the TraceQL planner models) -/
+def Sel.cols : Sel → List Expr
+  | .mk _ _ c _ _ _ _ _ _ _ _ => c
+def Sel.setCols : Sel → List Expr → Sel
+  | .mk ws d _ f j p w g h o l, c => .mk ws d c f j p w g h o l
+def Sel.having : Sel → Option Expr
+  | .mk _ _ _ _ _ _ _ _ h _ _ => h
 /-- `s.Select(append(s.GetSelect(), cols...)...)` -/
 def Sel.addCols : Sel → List Expr → Sel
   | .mk ws d c f j p w g h o l, cs => .mk ws d (c ++ cs) f j p w g h o l
-
-/-- `Select.AndHaving` -/
+/-- `Select.AndHaving` (same shape as `AndWhere`) -/
 def Sel.andHaving : Sel → List Expr → Sel
   | .mk ws d c f j p w g h o l, cl => .mk ws d c f j p w g (some (andCond h cl)) o l
 
